@@ -18,7 +18,9 @@ RULE = ('a case = generated FileStorage history with packs and reopens; the inde
         'opens, each compared query-by-query (full battery) with a no-index open of the same bytes, plus read-only '
         'open+use+close with SHA-1 of every file and the directory listing before/after and every writer call '
         'refused; images also include the file as seen while a writer is between vote and finish (complete transaction '
-        'with status c at the end): it must open - read-write and read-only - exactly like the file without that tail; '
+        'with status c at the end): it must open - read-write and read-only - exactly like the file without that tail; and '
+        'the file that lost its unsynced tail after an injected fsync failure in tpc_finish, opened with the index the '
+        'storage saved while shutting down; and the file followed by zero bytes (size extended, blocks never written); '
         'non-trivial = a stale (saved before >= 1 later commit or before a pack) or cut-short index, or a '
         'read-only open of an image with an unfinished tail; distinct by (image hash, variant hash)')
 ASSUMPTIONS = ['bit damage inside an index file is outside the guarantee (statement); only truncations and stale '
@@ -116,6 +118,15 @@ def execute(case):
     voted = voted_image(fresh(final), case['junk'])
     if voted is not None:
         images.append(('voted-tail', voted, npacks))
+    # the file size was extended at the crash but no block of the new transaction was written: zeros at the end
+    images.append(('zero-filled-tail', final + b'\0' * (23 + (case['cuts'] or [5])[0]), npacks))
+    # a commit whose fsync in tpc_finish fails: the storage shuts itself down and saves its index; then the
+    # unsynced tail is lost.  The index saved at that moment must still be a harmless cache.
+    extra_index = {}
+    lost = fsync_failed_image(fresh(final, {'.index': snaps[-1][0]} if snaps else None), case['junk'])
+    if lost is not None:
+        images.append(('tail-lost-after-failed-fsync', lost[0], npacks))
+        extra_index['tail-lost-after-failed-fsync'] = lost[1]
     ref_final = None
     for name, data, img_packs in images:
         ref_dir = fresh(data)
@@ -130,12 +141,13 @@ def execute(case):
         torn = name != 'final'
         if name == 'final':
             ref_final = ref
-        elif name == 'voted-tail':
-            out.label('voted-tail-image')
+        elif name in ('voted-tail', 'zero-filled-tail'):
+            out.label(name + '-image')
             df = diff_obs(ref_final, ref)
             if df:
-                out.fail((PROPERTY, 'voted-tail', 'visible', df[0][0]),
-                         'a file ending in a voted, unfinished transaction opens as %s -> %s ; without that tail %s' % (
+                out.fail((PROPERTY, name, 'visible', df[0][0]),
+                         'a file ending in %s opens as %s -> %s ; without that tail %s' % (
+                             'a voted, unfinished transaction' if name == 'voted-tail' else 'zero bytes',
                              fmt_answer(df[0]), fmt_answer(df[2]), fmt_answer(df[1])))
                 return done(out, nt)
 
@@ -156,6 +168,11 @@ def execute(case):
             if nontrivial:
                 nt.append((himg, hashlib.sha1(repr(sorted(files.items())).encode()).digest()))
 
+        if name in extra_index and extra_index[name] is not None:
+            out.label('index-saved-after-failed-fsync')
+            compare({'.index': extra_index[name]}, 'the index saved by the shutdown after a failed fsync in tpc_finish', True)
+            if out.failures:
+                return done(out, nt)
         for b, size, step, pk in snaps:
             if torn and size > len(data):
                 continue            # index from the future of a crash image: outside the crash model
@@ -257,6 +274,55 @@ def voted_image(dd, junk):
         return data
     finally:
         fs.close()
+
+
+def fsync_failed_image(dd, junk):
+    """-> (data file bytes without the unsynced tail, index bytes saved by the storage's shutdown) or None"""
+    import errno
+    from ZODB.Connection import TransactionMetaData
+    from ZODB.FileStorage import FileStorage
+    from vlib import rawio
+    from vlib.records import make_record
+    path = os.path.join(dd, 'Data.fs')
+    plan = rawio.FaultPlan('Data.fs', 'fsync', 0, err=errno.EIO)
+    rawio.start(watch=lambda p: p == path, faults=[plan])
+    try:
+        fs = FileStorage(path)
+        try:
+            size_before = os.path.getsize(path)
+            if plan.fired:
+                return None         # (the open itself synced: the fault went there)
+            oids, _ = scan_universe(fs)
+            live = []
+            for o in sorted(oids):
+                try:
+                    live.append((o, fs.load(o)[1]))
+                except KeyError:
+                    pass
+            t = TransactionMetaData(user='x', description='fsync fails in tpc_finish')
+            fs.tpc_begin(t)
+            if live:
+                oid, serial = live[junk % len(live)]
+                fs.store(oid, serial, make_record(700 + junk, [], junk % 60), '', t)
+            fs.store(fs.new_oid(), b'\0' * 8, make_record(701 + junk, [], junk % 90), '', t)
+            fs.tpc_vote(t)
+            try:
+                fs.tpc_finish(t)
+            except OSError:
+                pass
+            else:
+                return None
+        finally:
+            fs.close()
+    finally:
+        rawio.stop()
+    with open(path, 'rb') as f:
+        data = f.read()[:size_before]
+    idx = None
+    if os.path.exists(path + '.index'):
+        with open(path + '.index', 'rb') as f:
+            idx = f.read()
+    return data, idx
 
 
 def refuse_writes(ro, out, oids):
